@@ -322,7 +322,7 @@ def rule_entity_clip(ck, lk, mk, sub, lmax):
     for n, sl in truncs:
         ck.ob(rid, mk, n.ast, not _reaches(cfg, ad, n), "no truncation of the label happens after the '&' look-up")
     # the ellipsis is appended only after the guard ran
-    ell = cfg.stmt_nodes(lambda n: n.kind == "stmt" and isinstance(n.ast, (ast.AugAssign, ast.Assign)) and label in q.assigned_paths(n.ast) and any(isinstance(c, ast.Constant) and c.value == "..." for c in ast.walk(n.ast.value)))
+    ell = cfg.stmt_nodes(lambda n: n.kind == "stmt" and isinstance(n.ast, (ast.AugAssign, ast.Assign)) and label in q.assigned_paths(n.ast) and ((isinstance(n.ast, ast.AugAssign) and isinstance(n.ast.value, ast.Constant) and isinstance(n.ast.value.value, str)) or (isinstance(n.ast, ast.Assign) and isinstance(n.ast.value, ast.BinOp) and isinstance(n.ast.value.op, ast.Add) and q.dotted(n.ast.value.left) == label and isinstance(n.ast.value.right, ast.Constant))))
     ck.floor(rid, len(ell), 1, "ellipsis append")
     for e in ell:
         ck.ob(rid, mk, e.ast, cfg.dominates(ad, e), "the ellipsis is appended only after the entity guard")
@@ -411,6 +411,44 @@ def rule_entity_clip(ck, lk, mk, sub, lmax):
                   construct="prefix-clip %s" % q.normalize_construct(n.ast, q.local_names(mk.node))[:90])
 
 
+SAFE_LABEL_CALLS = {"split", "rsplit", "partition", "rpartition", "rfind", "find", "len", "group", "min", "max", "int", "startswith", "endswith", "join"}
+TRANSCODERS = {"xhtml_unescape", "unescape", "url_unescape", "unquote", "unquote_plus", "xhtml_escape", "escape", "url_escape", "quote", "quote_plus", "decode", "encode", "lower", "upper", "title", "replace", "translate", "format", "strip", "lstrip", "rstrip"}
+
+
+def rule_label_derived(ck, lk, mk):
+    """The visible label is cut out of the matched (escaped) text: slices, pieces of a split and literal
+    separators only -- no re-coding of the text and no markup characters added."""
+    rid = "C22.label-derived"
+    cfg = mk.cfg
+    anchors = [r for r in cfg.stmt_nodes(lambda n: n.kind == "stmt" and isinstance(n.ast, ast.Return)) if _anchor(r.ast.value)]
+    t, xs = _anchor(anchors[0].ast.value)
+    if (">" + PH + "</a>") not in t:
+        raise AnalysisError("make_link: anchor label not found")
+    label = q.dotted(xs[t[:t.find(">" + PH + "</a>") + 1].count(PH)])
+    mp = mk.params()[0]
+    derived = tainted_names(mk, [label, mp])
+    n = 0
+    for st in [x for x in q.walk_body(mk.node) if isinstance(x, (ast.Assign, ast.AugAssign)) and (label in q.assigned_paths(x) or (q.assigned_paths(x) & derived and any(nm in q.names_in(x.value) for nm in (label,))))]:
+        n += 1
+        v = st.value
+        bad_calls = []
+        unknown = []
+        for c in [c for c in ast.walk(v) if isinstance(c, ast.Call)]:
+            nm = q.call_attr(c)
+            if nm in SAFE_LABEL_CALLS:
+                continue
+            if nm in TRANSCODERS:
+                bad_calls.append(nm)
+            else:
+                unknown.append(nm)
+        if unknown and not bad_calls:
+            raise AnalysisError("make_link: call %s in the label computation is not understood" % unknown)
+        ck.ob(rid, mk, st, not bad_calls, "the label is cut out of the matched text without re-coding it%s" % ("" if not bad_calls else " (calls %s)" % bad_calls))
+        lits = [k.value for k in ast.walk(v) if isinstance(k, ast.Constant) and isinstance(k.value, str) and not any(isinstance(c, ast.Call) and k in c.args for c in ast.walk(v))]
+        ck.ob(rid, mk, st, all(not (set(x) & set("<>&\"'")) for x in lits), "literal text added to the label contains no markup characters", construct="label literals %s" % lits)
+    ck.floor(rid, n, 3, "label computations")
+
+
 def _is_no_semicolon_after(c, label, amp):
     # ";" not in label[amp:]
     if isinstance(c, ast.Compare) and len(c.ops) == 1 and isinstance(c.ops[0], ast.NotIn) and q.is_const(c.left, ";"):
@@ -444,6 +482,7 @@ def run(ck):
     ck.rule("C22.plain-returns", "make_link returns either the match unmodified or exactly one anchor whose href (double-quoted) derives from the match")
     ck.rule("C22.protocol-guard", "the anchor return is reached only with a permitted protocol, or none when none is required; protocol-less hrefs get http://")
     ck.rule("C22.regex-entities", "the URL regex consumes '&' only inside complete entities that html.escape produces")
+    ck.rule("C22.label-derived", "every computation of the visible label uses only slices/splits of the matched (escaped) text and markup-free literals; no unescape/escape/case/strip/replace re-coding")
     ck.rule("C22.entity-clip", "after every truncation of the link label the last '&' is examined and the label cut there: numeric look-back covering the longest regex entity relative to the cut, or the complete-entity test (no ';' after the '&')")
     lk, mk, sub = _link_ctx(ck)
     rule_escape_first(ck, lk, mk, sub)
@@ -451,6 +490,7 @@ def run(ck):
     lmax = rule_regex_entities(ck, sub)
     ck.note("longest entity admitted by the URL regex: %d characters" % lmax)
     rule_entity_clip(ck, lk, mk, sub, lmax)
+    rule_label_derived(ck, lk, mk)
 
 
 def _in(qn, edit):
@@ -511,6 +551,10 @@ MUTANTS = [
     ("http:// prefix added to every href", _in("linkify", replace_stmt(lambda st: isinstance(st, ast.If) and _u(st.test) == "not proto" and "http://" in _u(st), lambda st: st.body)), "C22.protocol-guard"),
     ("rejected match returned lower-cased", _in("linkify", replace_stmt(lambda st: isinstance(st, ast.Return) and _u(st) == "return url", lambda st: [parse_stmt("return url.lower()")], limit=1)), "C22.plain-returns"),
     ("href taken from the (shortened) label", _in("linkify", replace_expr(lambda n: isinstance(n, ast.JoinedStr), lambda n: parse_expr("f'<a href=\"{url}\"{params}>{url}</a>'"))), ("C22.plain-returns", "C22.protocol-guard")),
+    ("label shown unescaped ('nicer' display)", _in("linkify", replace_stmt(lambda st: isinstance(st, ast.AugAssign) and _u(st) == "url += '...'", lambda st: [parse_stmt("url = xhtml_unescape(url)"), st])), "C22.label-derived"),
+    ("label lower-cased", _in("linkify", replace_stmt(lambda st: isinstance(st, ast.Assign) and _u(st) == "before_clip = url", lambda st: [st, parse_stmt("url = url.lower()")])), "C22.label-derived"),
+    ("ellipsis as an entity-like literal with markup", _in("linkify", replace_expr(lambda n: q.is_const(n, "..."), lambda n: ast.Constant(value="<i>...</i>"))), ("C22.label-derived", "C22.entity-clip")),
+    ("href built from the unescaped match", _in("linkify", replace_stmt(lambda st: isinstance(st, ast.Assign) and _u(st) == "href = m.group(1)", lambda st: [parse_stmt("href = xhtml_unescape(m.group(1))")])), "C22.protocol-guard"),
     ("regex class no longer excludes '&'", _regex_edit(r"(?:[^\s&()]|&amp;|&quot;)*(?:[^!", r"(?:[^\s()]|&amp;|&quot;)*(?:[^!"), "C22.regex-entities"),
     ("regex admits a bare '&#'", _regex_edit(r"|&amp;|&quot;)*\)", r"|&amp;|&quot;|&#)*\)"), "C22.regex-entities"),
     ("F16 repair undone: look-back of 5 relative to max_len", _in("linkify", _guard("amp > max_len - 5")), "C22.entity-clip"),
